@@ -158,14 +158,16 @@ Definition set_id (j : job) (i : Z) : job :=
      j_cancel := j_cancel j; j_est := j_est j; j_group := j_group j; j_ajn := j_ajn j; j_aod := j_aod j;
      j_ext := j_ext j; j_id := Some i |}.
 
-(* GenericCommandConfiguration.add_job over the jobs in order; `seen` = keys of the container *)
+(* GenericCommandConfiguration.add_job over the jobs in order; `seen` = keys of the container.
+   `if not job.command` reads the *property* GenericCommandParameters.command, which for a
+   use_multi_node_manager job is "jade-internal run-multi-node-job <name> <command>": never empty. *)
 Fixpoint add_jobs (cur : Z) (seen : list string) (js : list job) : result (list job) :=
   match js with
   | [] => Ok []
   | j :: r =>
     let j' := match j_id j with None => set_id j cur | Some _ => j end in
     let cur' := match j_id j with None => (cur + 1)%Z | Some _ => cur end in
-    if String.eqb (j_command j') "" then Err EEmptyCommand
+    if negb (j_mnm j') && String.eqb (j_command j') "" then Err EEmptyCommand
     else if mem (job_name j') seen then Err (EDuplicateName (job_name j'))
     else match add_jobs cur' (job_name j' :: seen) r with
          | Ok l => Ok (j' :: l)
@@ -531,3 +533,47 @@ Definition event_eqb (a b : event) : bool :=
   match a, b with EvDump, EvDump | EvClusterCreate, EvClusterCreate | EvSubmitJobs, EvSubmitJobs => true | _, _ => false end.
 Definition result_eqb {A} (eqb : A -> A -> bool) (a b : result A) : bool :=
   match a, b with Ok x, Ok y => eqb x y | Err x, Err y => error_eqb x y | _, _ => false end.
+
+(* ---------- specification vocabulary (used by the statements in Props/C17.v) ---------- *)
+(* job ids as add_job hands them out: the counter advances only when it is used *)
+Fixpoint assign_ids (cur : Z) (js : list job) : list job :=
+  match js with
+  | [] => []
+  | j :: r => match j_id j with
+              | None => set_id j cur :: assign_ids (cur + 1)%Z r
+              | Some _ => j :: assign_ids cur r
+              end
+  end.
+(* `if not job.command` *)
+Definition command_ok (j : job) : Prop := j_mnm j = false -> j_command j <> "".
+
+Definition stripped (s : string) : Prop := sstrip s = s.
+(* a job as a constructed GenericCommandParameters holds it *)
+Definition job_normal (j : job) : Prop :=
+  (forall n, j_name j = Some n -> stripped n) /\ stripped (j_command j) /\ stripped (j_group j) /\
+  (forall b, In b (j_blocked j) -> exists s, b = BStr s /\ stripped s) /\ NoDup (j_blocked j) /\
+  (j_mnm j = true -> j_aod j = true) /\ j_id j <> None /\ command_ok j.
+(* a configuration as the constructed Python objects hold it *)
+Definition normalized (c : config) : Prop :=
+  Forall job_normal (c_jobs c) /\ NoDup (map job_name (c_jobs c)) /\
+  Forall (fun g => stripped (g_name g)) (c_groups c).
+
+(* the settings that must agree across groups, as the property names them *)
+Definition spec_group_wide : list string := ["max_nodes"; "poll_interval"].
+Definition valid (c : config) : Prop :=
+  c_groups c <> [] /\
+  NoDup (map g_name (c_groups c)) /\
+  (forall g1 g2, In g1 (c_groups c) -> In g2 (c_groups c) ->
+     g_hpc_type g1 = g_hpc_type g2 /\ forall p, In p spec_group_wide -> g_param p g1 = g_param p g2) /\
+  (forall j, In j (c_jobs c) -> In (j_group j) (map g_name (c_groups c))) /\
+  (forall g j, In g (c_groups c) -> g_batch_size g = JNum 0 -> In j (c_jobs c) -> j_group j = g_name g ->
+     j_est j <> None) /\
+  (forall j b, In j (c_jobs c) -> In b (j_blocked j) -> In (blocker_str b) (map job_name (c_jobs c))) /\
+  (forall g, In g (c_groups c) -> group_wall g <> None) /\
+  (forall j g e w, In j (c_jobs c) -> In g (c_groups c) -> g_name g = j_group j -> j_est j = Some e ->
+     group_wall g = Some w -> (e * 60 <= w)%Z).
+(* what construction yields when it succeeds *)
+Definition built (c : config) : config :=
+  {| c_jobs := assign_ids first_job_id (map norm_job (c_jobs c)); c_groups := map norm_group (c_groups c);
+     c_setup := c_setup c; c_teardown := c_teardown c; c_node_setup := c_node_setup c;
+     c_node_teardown := c_node_teardown c; c_user_data := c_user_data c |}.
